@@ -4,6 +4,7 @@ From Coq Require Import Bool List String.
 From Demes Require Import Base.Num Base.Py.
 Import ListNotations.
 Local Open Scope string_scope.
+Local Open Scope list_scope.
 
 Section MDM.
   Context {N : NumOps}.
